@@ -236,6 +236,8 @@ def run_recipe(ctx: Ctx, recipe: Dict[str, Any], cid: str) -> Case:
     def sid_of(ref) -> Optional[str]:
         if ref is None:
             return None
+        if ref == "e":
+            return ""  # empty SID header: a SID that was never issued
         if ref == "u" or not isinstance(ref, int) or ref >= len(sids):
             return str(uuid.UUID(int=ctx.rng.getrandbits(128), version=4))
         return sids[ref]
@@ -401,13 +403,13 @@ def rand_history(rng, max_ops: int):
             nsub += 1
             ndel += 1
         elif c < 18:
-            ref: Any = rng.randrange(0, max(nsub, 1)) if rng.randrange(5) else "u"
+            ref: Any = rng.randrange(0, max(nsub, 1)) if rng.randrange(5) else rng.choice(["u", "u", "e"])
             to = rng.choice(GOOD_TO) if rng.randrange(4) else rng.choice(ODD_TO)
             cb = None if rng.randrange(6) else rng.choice(GOOD_CB)
             ops.append(["renew", ref, cb, to])
         elif c < 24:
             r = rng.randrange(8)
-            ref = None if r == 0 else "u" if r == 1 else rng.randrange(0, max(nsub, 1))
+            ref = None if r == 0 else rng.choice(["u", "e"]) if r == 1 else rng.randrange(0, max(nsub, 1))
             ops.append(["unsub", ref])
         elif c < 62:
             x = rng.randrange(0, len(vs))
@@ -480,6 +482,8 @@ CORPUS: List[Dict[str, Any]] = [
                                              ["set", 0, 6], ["adv", 1000000], ["set", 0, 7], ["adv", 1000000]]},
     # F15b: change while the initial NOTIFY of a new subscriber is in flight
     {"vars": [[True, 0, 0]], "ops": [["sub", "<http://h/a>", None], ["set", 0, 5], ["done", 0], ["adv", 1000000]]},
+    # F15c: SUBSCRIBE with an empty SID header and a CALLBACK was answered 200 + new SID without registering anybody
+    {"vars": [[True, 0, 0]], "ops": [["renew", "e", "<http://h/a>", "Second-5"], ["set", 0, 1], ["unsub", "e"]]},
 ]
 
 
